@@ -93,7 +93,7 @@ Print Assumptions C01_T5_overflow_discards.
 (* non-vacuity: a concrete RS32 session satisfies no_overflow and produces clouds *)
 Example C01_nonvacuous :
   let d := desc_RS32 in
-  let c := mk_dcfg false false 1 100 1 dy_zero dy_zero 0 36000 true false false 0 0 0 false in
+  let c := mk_dcfg false false 1 100 1 dy_zero dy_zero 0 36000 true false false 0 0 0 false [] in
   let mk az := [85;170;5;10;90;165;80;160] ++ repeat 0 34 ++
                flat_map (fun k => [255;238; ((az + 20 * k) mod 36000) / 256; ((az + 20 * k) mod 36000) mod 256] ++ repeat 7 96) (map Z.of_nat (seq 0 12)) ++ repeat 0 6 in
   let '(v0, th, _) := init_drv d c [] 1000 [] 10 in
